@@ -52,7 +52,7 @@ def build_py(e):
 def expr_coq(e):
     t = e[0]
     if t in ('C', 'F'):
-        return '(ECoeffs %s)' % L.lst([L.q(fr(c)) for c in e[1]])
+        return '(%s %s)' % ('ECoeffs' if t == 'C' else 'EFunc', L.lst([L.q(fr(c)) for c in e[1]]))
     if t in BIN:
         return '(%s %s %s)' % ({'+': 'EAdd', '-': 'ESub', '*': 'EMul'}[t], expr_coq(e[1]), expr_coq(e[2]))
     if t in NUM:
@@ -221,6 +221,18 @@ def max_len(e):
     return max_len(e[1])
 
 
+def func_max_len(e):
+    """longest list behind a gf_from_coefficient_function leaf (those are summed to term 300 only)"""
+    t = e[0]
+    if t == 'F':
+        return len(e[1])
+    if t == 'C':
+        return 0
+    if t in BIN:
+        return max(func_max_len(e[1]), func_max_len(e[2]))
+    return func_max_len(e[1])
+
+
 def depth(e):
     t = e[0]
     if t in ('C', 'F'):
@@ -347,7 +359,7 @@ class H(Harness):
     COST_LIMIT = 60000          # model work per case (un-memoised coefficient recursion + evaluation)
     EVAL_LIMIT = 120            # leaves x points per case (each is a 301-term Fraction loop in the implementation)
     RULE = ('programs over gf_from_coefficients / gf_from_coefficient_function leaves (Fraction lists of length 0-6, a few of '
-            'length 299-301), the operators + - * with GF operands, + - * / with Fraction operands (including / 0), dx(k) and dx() '
+            'length 299-340), the operators + - * with GF operands, + - * / with Fraction operands (including / 0), dx(k) and dx() '
             'anywhere in the tree, k in 0..6; every operator shape of depth <= 2 over 6 unary and 3 binary operators (thorough: also '
             'depth <= 3 over 2 unary and 2 binary operators and depth <= 2 with two leaf fillings), random programs to depth 6 '
             '(thorough 7); asked: gf[i] for i in {0, 1, deg, deg+1, 3 random up to deg+2} and gf(x) at 2 of 8 rational points; a case is '
@@ -355,7 +367,7 @@ class H(Harness):
     TRUSTED = ['Coq 8.16.1 kernel incl. vm_compute', 'harness/c16.py and vlib (translation of a program to the Python operators and to the Coq expr type)',
                'CPython fractions.Fraction arithmetic is exact rational arithmetic', 'functools.lru_cache returns what the wrapped method would return']
     ASSUMPTIONS = ['coefficients, operands and evaluation points are exact rationals (fractions.Fraction); float inputs are not covered',
-                   'coefficient lists have at most 301 entries (FunctionGF evaluates the first 301 terms only)',
+                   'coefficient functions (gf_from_coefficient_function) vanish above index 300 (FunctionGF evaluates their first 301 terms only); coefficient lists may have any length since fix F12, generated up to 301 entries',
                    'numeric operands are on the right of the operator (GF defines no reflected operators)']
 
     def _accept(self, case):
@@ -400,7 +412,7 @@ class H(Harness):
                 idx, pts = queries(rnd, e)
                 out.append({'expr': e, 'idx': idx[:5], 'pts': pts[:1]})
         # the 301-term loop: coefficient lists that end exactly at / just below the last term summed
-        for n, x in ((301, '1'), (301, '-1'), (300, '2'), (299, '1/2')):
+        for n, x in ((301, '1'), (301, '-1'), (300, '2'), (299, '1/2'), (340, '1'), (340, '-1')):
             cs = [fs(Fraction((7 * i) % 5 - 2, 1 + i % 3)) for i in range(n)]
             cs[-1] = '3'
             for e in (['C', cs], ['dx1', ['C', cs]], ['*n', ['+', ['C', cs], ['C', ['1', '1']]], '1/2']):
@@ -441,7 +453,7 @@ class H(Harness):
             if fr(got) != want:
                 v.append({'signature': 'coefficient', 'detail': 'gf[%d] = %s, polynomial coefficient %s' % (i, got, fs(want))})
                 break
-        if max_len(e) <= 301:       # beyond that the code truncates and the property does not apply
+        if func_max_len(e) <= 301:  # beyond it a coefficient function is truncated and the property does not apply
             for x, got in zip(case['pts'], obs['values']):
                 want = p_eval(p, fr(x))
                 if fr(got) != want:
